@@ -28,7 +28,9 @@ TNtor == /\ Is("Ntor") /\ l' = l + 1
          /\ UNCHANGED <<cfg, out, done>>
 TBind == Is("Bind") /\ l' = l + 1 /\ Trace[l].changed_seed /\ Trace[l].changed_auth /\ UNCHANGED <<cfg, out, done>>
 TKdf == Is("Kdf") /\ l' = l + 1 /\ Trace[l].prefix_ok /\ Trace[l].repeat_ok /\ Trace[l].ref_eq /\ UNCHANGED <<cfg, out, done>>
-TNext == TReset \/ TNtor \/ TBind \/ TKdf
+\* handshakes running concurrently (one per connection goroutine) give what they give alone
+TConcurrent == Is("Concurrent") /\ l' = l + 1 /\ Trace[l].wrong = 0 /\ Trace[l].panics = 0 /\ Trace[l].ref_ok /\ UNCHANGED <<cfg, out, done>>
+TNext == TConcurrent \/ TReset \/ TNtor \/ TBind \/ TKdf
 TraceSpec == TInit /\ [][TNext]_tvars
 HW == TLCSet(1, IF l - 1 > TLCGet(1) THEN l - 1 ELSE TLCGet(1))
 TraceAccepted == IF TLCGet(1) = Len(Trace) THEN TRUE ELSE PrintT(<<"REJECTED_AFTER", TLCGet(1)>>) /\ FALSE
